@@ -432,6 +432,24 @@ template <typename T> void chk_fi(const Ctx& c, fam::FiObj<T>& o, const char* f)
   uint64_t wsum = 0; for (auto& iw : img) { wsum += iw.second; VF_CHECK(iw.second > 0, "fi-zero-weight", WHO << "an item with weight 0 is stored" << IMG); }
   VF_CHECK(wsum <= im.total_weight, "fi-weight-sum", WHO << "stored weights sum to " << wsum << " above the total weight " << im.total_weight);
   state((std::string(f) + (sk.is_empty() ? "/empty" : im.offset > 0 ? "/estimation" : "/exact")).c_str());
+  // the "empty" flag has three historical spellings (bit 2: Java; bit 0: earlier C++ releases; both: the current writer) and the format
+  // comment asks readers to accept each of them: the three forms of an empty image must decode, through both readers, to the same sketch
+  if (sk.is_empty() && c.img.size() == 8) {
+    const std::string want = o.observe();
+    for (uint8_t flags : {uint8_t(1), uint8_t(4), uint8_t(5)}) {
+      fam::Bytes b = c.img; b[5] = flags;
+      std::string o1, o2;
+      try {
+        o1 = o.from_bytes(b.data(), b.size())->observe();
+        std::istringstream is(std::string(b.begin(), b.end()), std::ios::binary);
+        o2 = o.from_stream(is)->observe();
+      } catch (const std::exception& ex) {
+        VF_CHECK(false, "fi-legacy-empty-form", WHO << "an empty image with flags byte " << int(flags) << " is refused: " << ex.what() << "  image=" << hex(b));
+      }
+      VF_CHECK(o1 == want && o2 == want, "fi-legacy-empty-form", WHO << "an empty image with flags byte " << int(flags) << " decodes to a different sketch");
+      vf::count("fi-legacy-empty-forms-checked");
+    }
+  }
 }
 
 // ---------------------------------------------------------------- count-min
